@@ -110,6 +110,7 @@ def _body_items(body):
         'cmd': lambda: Command(IntRange(0, 5), result=IntRange(0, 5))(_cmd_c),
         'cprops': lambda: Command(visibility=2)(_cmd_c2),
         'cgroup': lambda: Command(group='cg')(_cmd_c2),
+        'cnoinh': lambda: Command(IntRange(0, 3), inherit=False)(_cmd_c2),
         'method': lambda: _plain_c,
         'none': lambda: None,
     }
@@ -156,6 +157,9 @@ def _composites():
         'sc': Parameter('scaled', ScaledInteger(0.5, 0, 10, unit='$'), default=0, readonly=False),
         'en': Parameter('an enum', EnumType('mode', off=0, on=1), default=0, readonly=False),
         'p_limits': Limit(),
+        # limits of a parameter whose unit contains '$' (Writable.target): wired to the INSTANCE's datatype of target
+        'target_max': Limit(),
+        'target_limits': Limit(),
         'lim': Parameter('limits', LimitsType(FloatRange(unit='$')), default=(0, 0), readonly=False),
         'tup': Parameter('a tuple', TupleOf(FloatRange(unit='$'), IntRange(0, 9)), default=(0, 0), readonly=False),
         'arr': Parameter('an array', ArrayOf(FloatRange(unit='$'), 0, 3), default=[], readonly=False),
@@ -222,6 +226,10 @@ def _mutate(obj, mut):
     elif mut == 'sctdictadd':
         from frappy.core import BoolType
         obj.parameters['sct'].datatype.members['flag'] = BoolType()
+    elif mut == 'tmaxprop':       # run-time change of one instance's limit datatype
+        obj.parameters['target_max'].datatype.setProperty('max', 50)
+    elif mut == 'tlimprop':
+        obj.parameters['target_limits'].datatype.members[0].setProperty('min', -7)
     elif mut == 'scmember':
         obj.parameters['sc'].datatype.setProperty('max', 5)
     elif mut == 'enumname':
@@ -589,7 +597,7 @@ V_DER = ['unit', 'lim', 'dt']
 C_DER = ['cmd', 'cprops', 'cgroup', 'method', 'none']
 MUTS = ['setmax', 'setmin', 'setunit', 'reginput', 'reginput2', 'pvis', 'cmdarg', 'cmdres', 'statustext', 'tgtmin',
         'limmember', 'tupmember', 'arrmember', 'sctmember', 'scmember', 'enumname',
-        'sctopt', 'sctoptrm', 'cmdopt', 'sctdictadd']
+        'sctopt', 'sctoptrm', 'cmdopt', 'sctdictadd', 'tmaxprop', 'tlimprop']
 
 
 def random_program(rnd, nclasses, ninst, nmut):
@@ -745,6 +753,21 @@ def run(chk):
     if len(probe) != 2 or probe[-1]['bad']:
         from ..core import MachineryError
         raise MachineryError('C09 fixture: the plain root class / instance can not be created: %r' % probe[-1]['desc'])
+    # the override kinds the property quantifies over must be definable at all (a refused class is a lawful
+    # observation for the specification, which leaves legality open - but not for the documented kinds)
+    for kind, field in (('Parameter(inherit=False)', {'p': 'noinh'}), ('Command(inherit=False)', {'c': 'cnoinh'}),
+                        ('bare value', {'p': 'bare'}), ('None', {'p': 'none'}), ('plain method', {'c': 'method'})):
+        body = {'mixin': False, 'p': '-', 'c': '-', 'm': '-', 'w': '-'}
+        body.update(field)
+        ops = [{'act': 'defclass', 'x': 'k1', 'bases': [],
+                'body': {'mixin': False, 'p': 'new', 'c': 'cmd', 'm': '-', 'w': '-'}},
+               {'act': 'defclass', 'x': 'k2', 'bases': ['k1'], 'body': body}]
+        res = _run_forked(ops)
+        chk.impl_traces += 1
+        if res[-1]['bad']:
+            chk.violation({'module': 'ClassModel', 'clause': 'documented override kind can not be defined', 'kind': kind},
+                          {'programs': [ops], 'failed_at': 2, 'clause': 'documented override kind can not be defined',
+                           'error': res[-1]['desc'].get('k2')})
     chk.add_tlc(model_check('ClassModel', 'MC_ClassModel_quick.cfg' if quick else 'MC_ClassModel_thorough.cfg',
                             timeout=1000))
     # spec -> code: TLC's programs
